@@ -11,15 +11,22 @@ use std::process::{Command, Stdio};
 use std::time::{Duration, Instant};
 
 pub const OPS: [&str; 7] = ["parse", "print", "debug", "clone", "compare", "drop", "evaluate"];
-pub const CONSTRUCTS: [&str; 26] = [
+pub const CONSTRUCTS: [&str; 64] = [
     "neg-chain", "not-chain", "add-left-deep", "and-left-deep", "eq-left-deep", "add-right-nested", "builtin-call-nested", "list-nested", "map-nested", "if-in-condition", "if-else-chain", "index-chain",
     "bitand-left-deep", "lt-left-deep", "contains-nested", "if-in-then", "some-none-nested", "list-flat", "map-flat", "string-long",
     // long but flat inputs whose processing must be iterative
     "string-many-escapes", "string-many-unicode-escapes", "in-flat-list", "flat-list-contains", "call-with-flat-list", "long-identifier",
+    // every remaining binary node kind, left-deep (one frame size per node kind in print / clone / compare / drop / evaluate)
+    "sub-left-deep", "mult-left-deep", "div-left-deep", "rem-left-deep", "or-left-deep", "neq-left-deep", "gt-left-deep", "gte-left-deep", "lte-left-deep", "bitor-left-deep", "bitxor-left-deep",
+    // every remaining one-argument built-in, nested
+    "float-nested", "dec-nested", "datetime-nested", "duration-nested", "uppercase-nested", "lowercase-nested", "trim-nested", "round-nested", "floor-nested", "fract-nested",
+    "year-nested", "month-nested", "week-nested", "day-nested", "hour-nested", "minute-nested", "second-nested",
+    // mixtures and further flat inputs
+    "mixed-nesting", "numeric-index-chain", "map-in-list-nested", "if-in-else-with-and", "symbol-index-chain", "long-comment", "long-whitespace", "list-flat-of-strings", "map-flat-long-keys", "in-nested",
 ];
 /// constructs probed with `parse` only (their evaluation needs a ruleset or is the same tree as another construct),
 /// and rule texts probed through Rule::parse
-pub const PARSE_ONLY: [&str; 4] = ["parentheses", "user-call-nested", "rule-with-nested-metadata", "rule-with-many-comment-lines"];
+pub const PARSE_ONLY: [&str; 8] = ["parentheses", "user-call-nested", "rule-with-nested-metadata", "rule-with-many-comment-lines", "rule-with-many-metadata-items", "rule-with-nested-map-metadata", "rule-with-long-metadata-list", "rule-with-crlf-comment-lines"];
 pub const STACKS: [&str; 2] = ["main-8MiB", "thread-2MiB"];
 
 pub fn text_for(construct: &str, n: usize) -> String {
@@ -43,7 +50,33 @@ pub fn text_for(construct: &str, n: usize) -> String {
         "contains-nested" => format!("{}[]{}", "(".repeat(n), " contains i1)".repeat(n)),
         "if-in-then" => format!("{}i1{}", "if true then ".repeat(n), " else i2".repeat(n)),
         "some-none-nested" => format!("{}i1{}", "some(none(".repeat(n), "))".repeat(n)),
+        "sub-left-deep" => format!("i1{}", " - i1".repeat(n)),
+        "mult-left-deep" => format!("i1{}", " * i1".repeat(n)),
+        "div-left-deep" => format!("i1{}", " / i1".repeat(n)),
+        "rem-left-deep" => format!("i1{}", " % i1".repeat(n)),
+        "or-left-deep" => format!("false{}", " or false".repeat(n)),
+        "neq-left-deep" => format!("i1{}", " != i1".repeat(n)),
+        "gt-left-deep" => format!("i1{}", " > i1".repeat(n)),
+        "gte-left-deep" => format!("i1{}", " >= i1".repeat(n)),
+        "lte-left-deep" => format!("i1{}", " <= i1".repeat(n)),
+        "bitor-left-deep" => format!("i1{}", " | i1".repeat(n)),
+        "bitxor-left-deep" => format!("i1{}", " ^ i1".repeat(n)),
+        c if c.ends_with("-nested") && ["float", "dec", "datetime", "duration", "uppercase", "lowercase", "trim", "round", "floor", "fract", "year", "month", "week", "day", "hour", "minute", "second"].contains(&&c[..c.len() - 7]) => {
+            let f = &c[..c.len() - 7];
+            format!("{}none{}", format!("{f}(").repeat(n), ")".repeat(n))
+        }
+        // one level = five different node kinds around the next level
+        "mixed-nesting" => format!("{}i1{}", "-(i1 + [{a: if true then ".repeat(n), " else i2}].0.a)".repeat(n)),
+        "numeric-index-chain" => format!("facts{}", ".0".repeat(n)),
+        "map-in-list-nested" => format!("{}i1{}", "[{a: ".repeat(n), "}]".repeat(n)),
+        "if-in-else-with-and" => format!("{}i1", "if false and true then i1 else ".repeat(n)),
+        "symbol-index-chain" => format!(":s{}", ".a.0".repeat(n)),
+        "in-nested" => format!("{}i1{}", "(i1 in ".repeat(n), ")".repeat(n)),
         // long but flat
+        "long-comment" => format!("// {}\ni1", "comment ".repeat(n * 2)),
+        "long-whitespace" => format!("i1 +{}i1", " \t\n".repeat(n * 4)),
+        "list-flat-of-strings" => format!("[{}\"z\"]", "\"a\\n\", ".repeat(n)),
+        "map-flat-long-keys" => format!("{{{}z: i1}}", (0..n).map(|i| format!("a_rather_long_key_name_number_{i}: none, ")).collect::<String>()),
         "list-flat" => format!("[{}i1]", "i1, ".repeat(n)),
         "map-flat" => format!("{{{}z: i1}}", (0..n).map(|i| format!("k{i}: i1, ")).collect::<String>()),
         "string-long" => format!("\"{}\"", "0123456789".repeat(n)),
@@ -55,6 +88,10 @@ pub fn text_for(construct: &str, n: usize) -> String {
         "long-identifier" => format!("a{}", "b".repeat(n * 10)),
         "rule-with-nested-metadata" => format!("// name\n@m: {}i1{};\ni1", "[".repeat(n), "]".repeat(n)),
         "rule-with-many-comment-lines" => format!("{}i1", "// line\n".repeat(n)),
+        "rule-with-many-metadata-items" => format!("// name\n{}i1", (0..n).map(|i| format!("@k{i}: i{i};\n")).collect::<String>()),
+        "rule-with-nested-map-metadata" => format!("// name\n@m: {}i1{};\ni1", "{a: ".repeat(n), "}".repeat(n)),
+        "rule-with-long-metadata-list" => format!("// name\n@m: [{}i1];\ni1", "i1, ".repeat(n)),
+        "rule-with-crlf-comment-lines" => format!("{}i1\r\n{}", "// line\r\n".repeat(n), "  // after\r\n".repeat(n)),
         _ => panic!("construct {construct}"),
     }
 }
@@ -317,7 +354,7 @@ pub fn drive(tier: Tier) -> i32 {
         exhaustive_part: "the full grid operations x constructs x stacks (x profiles in the thorough tier)".into(),
         ..Default::default()
     };
-    fin.floors.push(floor(format!("cells explored: {}", results.len()), results.len() >= 7 * 26 * 2));
+    fin.floors.push(floor(format!("cells explored: {}", results.len()), results.len() >= 7 * 64 * 2));
     fin.extras.insert("threshold_table".into(), json!(table));
     fin.extras.insert("cells_crashing".into(), json!(crashing));
     fin.extras.insert("cells_surviving_1e5".into(), json!(results.iter().filter(|r| r.crashed_at.is_none() && r.survived >= 100_000).count()));
